@@ -298,3 +298,17 @@ func spec_isNumLit(e Expr) bool {
 // spec_isStrLit / spec_isBoolLit
 func spec_isStrLit(e Expr) bool  { _, ok := e.(*StringLiteral); return ok }
 func spec_isBoolLit(e Expr) bool { _, ok := e.(*BooleanLiteral); return ok }
+
+// ---------------------------------------------------------------- AST invariant (G3)
+
+// spec_isExprNode: the node kinds that occur in expression position of a parsed
+// (and possibly reduced) statement. The parser produces no NilLiteral,
+// BoundParameter or ListLiteral there.
+func spec_isExprNode(e Expr) bool {
+	switch e.(type) {
+	case *BinaryExpr, *BooleanLiteral, *Call, *Distinct, *DurationLiteral, *IntegerLiteral, *UnsignedLiteral,
+		*NumberLiteral, *ParenExpr, *RegexLiteral, *StringLiteral, *TimeLiteral, *VarRef, *Wildcard:
+		return true
+	}
+	return false
+}
